@@ -104,6 +104,7 @@ def run(ctx):
         c = ctx.replay['case']
         cases = [(c['prog'], c['inputs'])]
     else:
+        ctx.mc('MC_SecLoop', 'MC_SecLoop', workers=4, timeout=900, coverage=False)    # design level, see the module header
         ncell = sum(WEIGHT.get(o, 1) for o in OPT_DOC) * len(POPS)
         cases = gen_cases(ctx, dev or (ncell if ctx.quick else 12 * ncell))
     results, fails, legal = F.behaviour_check(ctx, 'sec', cases, transform)
